@@ -1,6 +1,8 @@
 import CogentModel.Model.PruneFixed
 import CogentModel.Proofs.PruneFixed
 import CogentModel.Props.C02
+import CogentModel.Model.PruneGap
+import CogentModel.Proofs.PruneGap
 /-! # C02, third part — `fixed_motifs` (`PartialLikelihoodProductDefnFixedMotif`, ancestral reconstruction)
 
 `Model/PruneFixed.lean` mirrors the mask `result[:, motif != fixed_motif] = 0` on the partial likelihoods of ONE internal
@@ -105,5 +107,40 @@ example : lhFixed 2 exPi (fun a x => if a = 7 then (if x = 1 then 1 else 0) else
   decide
 example : lh 2 exPi (fun a x => if a = 7 then (if x = 1 then 1 else 0) else exProf a x) (addLeafAt (.leaf idMat 7) [1] exTree) = 108 := by
   decide
+
+/-! ## the extra all-gap column (count 0) every node appends to its unique columns -/
+
+/-- **The gap row is weightless.**  `get_log_sum_across_sites` over the arrays of a real node — `_indexed` output plus the
+appended gap row with count `0` — is the plain sum over ALL alignment columns, whatever the gap row's key and whatever
+likelihood `g` the kernel computes for it (any `g`, so `log` stays uninterpreted). -/
+theorem gap_column_weightless {κ S : Type} [DecidableEq κ] [AddCommMonoid S] (g : κ → S) (gap : κ) (cols : List κ) :
+    lnLCompressedGap g gap cols = (cols.map g).sum := by
+  unfold lnLCompressedGap indexedGap
+  simp only
+  rw [wls_append_zero g _ _ gap (indexed_len cols)]
+  exact compress_sum g cols
+
+/-- **No column points at the gap row**: `likelihoods[self.index]` over the extended table gives every alignment column
+its own pattern's value; the index array is the one `_indexed` produced and all its entries are below the gap row's position. -/
+theorem gap_column_full_length {κ S : Type} [DecidableEq κ] [Zero S] (g : κ → S) (gap : κ) (cols : List κ) :
+    fullLengthGap g gap cols = cols.map g
+    ∧ (indexedGap gap cols).index = (indexed cols).index
+    ∧ (∀ i ∈ (indexedGap gap cols).index, i < (indexedGap gap cols).uniq.length - 1)
+    ∧ (indexedGap gap cols).counts.getLast? = some 0 := by
+  refine ⟨?_, rfl, ?_, by simp [indexedGap]⟩
+  · rw [← full_length_expand g cols]
+    unfold fullLengthGap fullLength indexedGap
+    simp only [List.map_append]
+    refine List.map_congr_left fun i hi => ?_
+    rw [List.getD_append _ _ _ _ (by simpa using indexed_index_lt cols i hi)]
+  · intro i hi
+    simpa [indexedGap] using indexed_index_lt cols i hi
+
+/-- three columns, one repeated; the gap row's own "likelihood" (`g 9 = 1000`) never shows up -/
+example : (indexedGap 9 [4, 7, 4]).uniq = [4, 7, 9] ∧ (indexedGap 9 [4, 7, 4]).counts = [2, 1, 0]
+    ∧ (indexedGap 9 [4, 7, 4]).index = [0, 1, 0] := by decide
+example : lnLCompressedGap (fun k => if k = 9 then 1000 else k + 1) 9 [4, 7, 4] = 5 + 8 + 5 := by decide
+example : fullLengthGap (fun k => if k = 9 then 1000 else k + 1) 9 [4, 7, 4] = [5, 8, 5] := by decide
+example : gapKey [3, 1, 5] = [2, 0, 4] := by decide
 
 end CogentModel.C02
